@@ -75,6 +75,15 @@ def process_loop(k, conns, obj, make_key):
                 conn.send(("ret", line))
             elif msg[0] == "next":
                 conn.send(("ret", obj._read_next_line()))
+            elif msg[0] == "noop":
+                # calls that are documented to change nothing on an opened file object
+                if msg[1] == 0:
+                    obj.open()
+                elif msg[1] == 1:
+                    len(obj)
+                elif hasattr(type(obj), "closed"):
+                    _ = obj.closed
+                conn.send(("ok",))
             elif msg[0] == "fork":
                 j = msg[1]
                 pid = os.fork()
@@ -182,6 +191,10 @@ class ForkTree:
 
     def next(self, k):
         self.send(k, "next")
+        return self.recv(k)
+
+    def noop(self, k, kind):
+        self.send(k, "noop", kind)
         return self.recv(k)
 
     def stop(self):
